@@ -300,6 +300,19 @@ def run_property(prop: str, tier: str, seed: int, only: str | None = None, verbo
                 r2 = _run_chx(sub, prop, excludes_for(parent), seed + 1, tag + "r")
                 r2["retried_after"] = str(r.get("message"))[:300]
                 r = r2
+            # A counterexample that does not replay concretely in a fresh interpreter is not a violation (state left
+            # behind by an aborted earlier path of the same worker, a modelled value): the obligation is run again in
+            # a fresh worker, twice at most; what stays non-reproducing is reported as inconclusive, never as VIOLATION.
+            attempts = 0
+            while r.get("status") == "cex" and r.get("cex") is not None and attempts < 2:
+                ok, _msg = run_replay(prop, sub.fn.__name__, r["cex"])
+                if ok is not False:
+                    break
+                attempts += 1
+                r2 = _run_chx(sub, prop, excludes_for(parent), seed + 10 * attempts, tag + f"n{attempts}")
+                r2["retried_after"] = f"counterexample {r.get('cex')} did not reproduce concretely"
+                r = r2
+            r["nonrepro_attempts"] = attempts
         else:
             r = _run_py(sub, prop, tier, tag)
         return [(idx, r)]
@@ -387,7 +400,9 @@ def run_property(prop: str, tier: str, seed: int, only: str | None = None, verbo
                     path = write_replay_file(prop, sub.name, prop, replay_fn.__name__, cex)
                     violations.append((sub.name, path, r.get("message", "")))
                 elif ok is False:
-                    harness_errors.append((sub.name, f"counterexample did not reproduce concretely ({cex}): {r.get('message')}"))
+                    entry["verdict"] = "inconclusive"
+                    inconclusive.append((sub.name, f"counterexample did not reproduce concretely in a fresh interpreter, also after "
+                                                   f"{r.get('nonrepro_attempts', 0)} more run(s) of the obligation ({cex}): {r.get('message')}"))
                 else:
                     harness_errors.append((sub.name, msg))
         else:
